@@ -71,6 +71,15 @@ theorem gen_stdErrorEllipse {K : Type} [Scalar K] [Trig K] (cyy cyx cxx m : K) :
 theorem gen_covEntry {K : Type} [Scalar K] (m q : K) :
     StatsGen.covEntry m q = covEntry m q := rfl
 
+theorem gen_xmlAposteriori {K : Type} [Scalar K] (phi : K) (dof : Int) :
+    StatsGen.xmlAposteriori phi dof = xmlAposteriori phi dof := rfl
+
+theorem gen_xmlRatio {K : Type} [Scalar K] (phi sapr : K) (dof : Int) :
+    StatsGen.xmlRatio phi sapr dof = xmlRatio phi sapr dof := rfl
+
+theorem gen_errObsAdj {K : Type} [Scalar K] (v qvv w : K) :
+    StatsGen.errObsAdj v qvv w = errObsAdj v qvv w := rfl
+
 /-! ## degrees of freedom -/
 
 /-- as coded: observations − unknowns + defect -/
@@ -305,6 +314,249 @@ theorem C09_sigma_apr_scaling_ellipse (cxx cxy cyy m s : ℝ) (hs : 0 < s) :
       = stdErrorEllipse cyy cxy cxx m :=
   ellipse_scale cxx cxy cyy m s hs
 
+/-! ## round 3: the guarded regions, stated about the REGENERATED definitions
+
+  Every theorem below is about `StatsGen.*` (the text of the current C++) and re-derives the
+  `gen_*` equality it needs inside its own proof (`hgen`, by `rfl`), so that a changed formula
+  breaks the property theorem by name, not only the `gen_*` one.  Each has the guard / clamp /
+  threshold of the formula inside the statement:
+  it quantifies over the inputs on BOTH sides of the guard and over every positive scale, so a
+  guard that fires on another condition (`cyx == 0` for `c == 0`) or at an absolute threshold
+  (`qv > 1e-6` for `qv >= 0`) falsifies the statement, not only the `rfl`. -/
+
+/-- ERROR ELLIPSE, every symmetric positive semidefinite block (including `cxy = 0` with
+    `cyy > cxx`, `cxx = cyy` with `cxy ≠ 0`, the circle, singular blocks): with
+    `(a, b, α) = std_error_ellipse` there are `λ₁ ≥ λ₂ ≥ 0`, `λ₁ + λ₂ = trace`, `λ₁ λ₂ = det`
+    (the eigenvalues), `a² = m0² λ₁`, `b² = m0² λ₂`, `a ≥ b ≥ 0`, `(cos α, sin α)` is an eigenvector
+    for `λ₁`, `0 ≤ α < π`, and `α` is the ONLY such bearing in `[0, π)` unless `λ₁ = λ₂`
+    (where every direction is an eigenvector and the code reports 0). -/
+theorem C09_ellipse_is_eigen_full (cxx cxy cyy m : ℝ) (hm : 0 ≤ m) (hxx : 0 ≤ cxx) (hyy : 0 ≤ cyy)
+    (hdet : cxy ^ 2 ≤ cxx * cyy) :
+    ∃ l1 l2 : ℝ,
+      l1 + l2 = cxx + cyy ∧ l1 * l2 = cxx * cyy - cxy ^ 2 ∧ 0 ≤ l2 ∧ l2 ≤ l1 ∧
+      (StatsGen.stdErrorEllipse cyy cxy cxx m).1 ^ 2 = m ^ 2 * l1 ∧
+      (StatsGen.stdErrorEllipse cyy cxy cxx m).2.1 ^ 2 = m ^ 2 * l2 ∧
+      0 ≤ (StatsGen.stdErrorEllipse cyy cxy cxx m).2.1 ∧
+      (StatsGen.stdErrorEllipse cyy cxy cxx m).2.1 ≤ (StatsGen.stdErrorEllipse cyy cxy cxx m).1 ∧
+      cxx * cos (StatsGen.stdErrorEllipse cyy cxy cxx m).2.2
+          + cxy * sin (StatsGen.stdErrorEllipse cyy cxy cxx m).2.2
+        = l1 * cos (StatsGen.stdErrorEllipse cyy cxy cxx m).2.2 ∧
+      cxy * cos (StatsGen.stdErrorEllipse cyy cxy cxx m).2.2
+          + cyy * sin (StatsGen.stdErrorEllipse cyy cxy cxx m).2.2
+        = l1 * sin (StatsGen.stdErrorEllipse cyy cxy cxx m).2.2 ∧
+      0 ≤ (StatsGen.stdErrorEllipse cyy cxy cxx m).2.2 ∧
+      (StatsGen.stdErrorEllipse cyy cxy cxx m).2.2 < π ∧
+      (l1 = l2 → (StatsGen.stdErrorEllipse cyy cxy cxx m).2.2 = 0) ∧
+      (l1 ≠ l2 → ∀ β : ℝ, 0 ≤ β → β < π →
+        cxx * cos β + cxy * sin β = l1 * cos β → cxy * cos β + cyy * sin β = l1 * sin β →
+        β = (StatsGen.stdErrorEllipse cyy cxy cxx m).2.2) := by
+  have hgen : ∀ a b c d : ℝ, StatsGen.stdErrorEllipse a b c d = stdErrorEllipse a b c d :=
+    fun _ _ _ _ => rfl
+  rw [hgen]
+  obtain ⟨hc0, hctr, hcc, ha, hb, e1, e2, r0, r1⟩ := ellipse_full cxx cxy cyy m hxx hyy hdet
+  set c := √((cxx - cyy) * (cxx - cyy) + 4 * cxy * cxy) with hc
+  have hl2 : 0 ≤ (cxx + cyy - c) / 2 := by linarith
+  have hl1 : 0 ≤ (cxx + cyy + c) / 2 := by linarith
+  refine ⟨(cxx + cyy + c) / 2, (cxx + cyy - c) / 2, by ring, by nlinarith, hl2, by linarith,
+    ?_, ?_, ?_, ?_, e1, e2, r0, r1, ?_, ?_⟩
+  · rw [ha, mul_pow, Real.sq_sqrt hl1]
+  · rw [hb, mul_pow, Real.sq_sqrt hl2]
+  · rw [hb]; exact mul_nonneg hm (Real.sqrt_nonneg _)
+  · rw [ha, hb]; exact mul_le_mul_of_nonneg_left (Real.sqrt_le_sqrt (by linarith)) hm
+  · intro h
+    have h0 : c = 0 := by linarith
+    rw [ellipse_general, ← hc, if_pos h0]
+  · intro hne β hβ0 hβπ b1 b2
+    exact eigvec_unique cxx cxy cyy _ _ _ β (by ring) hne r0 r1 hβ0 hβπ e1 e2 b1 b2
+
+/-- the boundary inputs of the ellipse guard evaluated: an EXACTLY diagonal block with the larger
+    variance in y has bearing π/2 (not 0), with the larger variance in x bearing 0; equal
+    variances with positive / negative covariance have bearing π/4 / 3π/4; the circle 0 -/
+theorem C09_ellipse_guard_boundary (p q e m : ℝ) (hp : 0 ≤ p) (hpq : p < q) (he : 0 < e) (heq : e ≤ q) :
+    (StatsGen.stdErrorEllipse q 0 p m).2.2 = π / 2 ∧
+    (StatsGen.stdErrorEllipse p 0 q m).2.2 = 0 ∧
+    (StatsGen.stdErrorEllipse q e q m).2.2 = π / 4 ∧
+    (StatsGen.stdErrorEllipse q (-e) q m).2.2 = 3 * π / 4 ∧
+    (StatsGen.stdErrorEllipse q 0 q m).2.2 = 0 := by
+  have hgen : ∀ a b c d : ℝ, StatsGen.stdErrorEllipse a b c d = stdErrorEllipse a b c d :=
+    fun _ _ _ _ => rfl
+  have hq : 0 ≤ q := by linarith
+  have hpi := Real.pi_pos
+  have uniq : ∀ cxx cxy cyy l1 l2 β : ℝ, 0 ≤ cxx → 0 ≤ cyy → cxy ^ 2 ≤ cxx * cyy →
+      l1 + l2 = cxx + cyy → l1 * l2 = cxx * cyy - cxy ^ 2 → l2 < l1 → 0 ≤ β → β < π →
+      cxx * cos β + cxy * sin β = l1 * cos β → cxy * cos β + cyy * sin β = l1 * sin β →
+      (StatsGen.stdErrorEllipse cyy cxy cxx m).2.2 = β := by
+    intro cxx cxy cyy l1 l2 β hxx hyy hdet hs hpr hlt hβ0 hβπ b1 b2
+    rw [hgen]
+    obtain ⟨hc0, hctr, hcc, -, -, e1, e2, r0, r1⟩ := ellipse_full cxx cxy cyy m hxx hyy hdet
+    set c := √((cxx - cyy) * (cxx - cyy) + 4 * cxy * cxy) with hc
+    -- (cxx + cyy + c)/2 is the larger root, so it is l1
+    have hl : (cxx + cyy + c) / 2 = l1 := by
+      have hd : (l1 - l2) ^ 2 = c * c := by rw [hcc]; nlinarith
+      have : l1 - l2 = c := by
+        have h1 : (l1 - l2 - c) * (l1 - l2 + c) = 0 := by nlinarith
+        rcases mul_eq_zero.mp h1 with h | h
+        · linarith
+        · nlinarith
+      linarith
+    rw [hl] at e1 e2
+    exact (eigvec_unique cxx cxy cyy l1 l2 _ β hs hlt.ne' r0 r1 hβ0 hβπ e1 e2 b1 b2).symm
+  refine ⟨?_, ?_, ?_, ?_, ?_⟩
+  · refine uniq p 0 q q p (π / 2) hp hq (by nlinarith) (by ring) (by ring) hpq (by linarith) (by linarith) ?_ ?_
+    · rw [Real.cos_pi_div_two, Real.sin_pi_div_two]; ring
+    · rw [Real.cos_pi_div_two, Real.sin_pi_div_two]; ring
+  · refine uniq q 0 p q p 0 hq hp (by nlinarith) (by ring) (by ring) hpq (le_refl _) hpi ?_ ?_
+    · rw [Real.cos_zero, Real.sin_zero]; ring
+    · rw [Real.cos_zero, Real.sin_zero]; ring
+  · refine uniq q e q (q + e) (q - e) (π / 4) hq hq (by nlinarith) (by ring) (by ring) (by linarith)
+      (by linarith) (by linarith) ?_ ?_
+    · rw [Real.cos_pi_div_four, Real.sin_pi_div_four]; ring
+    · rw [Real.cos_pi_div_four, Real.sin_pi_div_four]; ring
+  · have h34 : 3 * π / 4 = π - π / 4 := by ring
+    refine uniq q (-e) q (q + e) (q - e) (3 * π / 4) hq hq (by nlinarith) (by ring) (by ring) (by linarith)
+      (by linarith) (by linarith) ?_ ?_
+    · rw [h34, Real.cos_pi_sub, Real.sin_pi_sub, Real.cos_pi_div_four, Real.sin_pi_div_four]; ring
+    · rw [h34, Real.cos_pi_sub, Real.sin_pi_sub, Real.cos_pi_div_four, Real.sin_pi_div_four]; ring
+  · rw [hgen]; exact C09_ellipse_circle q m
+
+/-- the ellipse guard carries no absolute scale: cofactors `Q/t` with reference deviation `√t·m0`
+    (any σ_apr) give the same ellipse, for every block on either side of the guard -/
+theorem C09_ellipse_scale_free (cxx cxy cyy m s : ℝ) (hs : 0 < s) :
+    StatsGen.stdErrorEllipse (cyy / s ^ 2) (cxy / s ^ 2) (cxx / s ^ 2) (s * m)
+      = StatsGen.stdErrorEllipse cyy cxy cxx m := by
+  have hgen : ∀ a b c d : ℝ, StatsGen.stdErrorEllipse a b c d = stdErrorEllipse a b c d :=
+    fun _ _ _ _ => rfl
+  rw [hgen, hgen]; exact ellipse_scale cxx cxy cyy m s hs
+
+/-- RESIDUAL COFACTOR with its clamp: the reported value is `1/p − q_L` (`q_L = q_bb/p`) whenever
+    that is ≥ 0 and 0 otherwise, it is never negative, and the clamp has no absolute scale:
+    multiplying every weight by any `t > 0` (any σ_apr: `p = (σ_apr/stdev)²`) maps `q_vv ↦ q_vv/t`
+    exactly — also across the clamp — and leaves the standard deviation of the residual (with
+    `m0 ↦ √t·m0`), the standardized residual and `<err-obs>`/`<err-adj>` unchanged. -/
+theorem C09_residual_cofactor_scale_free (qbb w t m r v : ℝ) (ht : 0 < t) :
+    (0 ≤ 1 / w - qbb / w → StatsGen.wcoefRes qbb w = 1 / w - qbb / w) ∧
+    (1 / w - qbb / w < 0 → StatsGen.wcoefRes qbb w = 0) ∧
+    0 ≤ StatsGen.wcoefRes qbb w ∧
+    StatsGen.wcoefRes qbb (t * w) = StatsGen.wcoefRes qbb w / t ∧
+    StatsGen.stdevRes (√t * m) (StatsGen.wcoefRes qbb (t * w))
+      = StatsGen.stdevRes m (StatsGen.wcoefRes qbb w) ∧
+    StatsGen.studentizedResidual (StatsGen.stdevRes (√t * m) (StatsGen.wcoefRes qbb (t * w))) r
+      = StatsGen.studentizedResidual (StatsGen.stdevRes m (StatsGen.wcoefRes qbb w)) r ∧
+    StatsGen.errObsAdj v (StatsGen.wcoefRes qbb (t * w)) (t * w)
+      = StatsGen.errObsAdj v (StatsGen.wcoefRes qbb w) w := by
+  have hgen1 : ∀ a b : ℝ, StatsGen.wcoefRes a b = wcoefRes a b := fun _ _ => rfl
+  have hgen2 : ∀ a b : ℝ, StatsGen.stdevRes a b = stdevRes a b := fun _ _ => rfl
+  have hgen3 : ∀ a b : ℝ, StatsGen.studentizedResidual a b = studentizedResidual a b := fun _ _ => rfl
+  have hgen4 : ∀ a b c : ℝ, StatsGen.errObsAdj a b c = errObsAdj a b c := fun _ _ _ => rfl
+  simp only [hgen1, hgen2, hgen3, hgen4]
+  have hsc := wcoefRes_scale qbb w t ht
+  have hsr : stdevRes (√t * m) (wcoefRes qbb (t * w)) = stdevRes m (wcoefRes qbb w) := by
+    rw [hsc]; exact stdevRes_scale m _ t ht
+  refine ⟨wcoefRes_of_nonneg qbb w, wcoefRes_of_neg qbb w, wcoefRes_nonneg qbb w, hsc, hsr, ?_, ?_⟩
+  · rw [hsr]
+  · rw [hsc]; exact errObsAdj_scale v _ w t ht
+
+/-- the weight is `(σ_apr/stdev)²`, so σ_apr ↦ s·σ_apr is the weight scale `t = s²` of the
+    previous theorem -/
+theorem C09_weight_scale (sapr stdev s : ℝ) :
+    StatsGen.weightObs sapr stdev = (sapr / stdev) ^ 2 ∧
+    StatsGen.weightObs (s * sapr) stdev = s ^ 2 * StatsGen.weightObs sapr stdev := by
+  have hgen : ∀ a b : ℝ, StatsGen.weightObs a b = weightObs a b := fun _ _ => rfl
+  refine ⟨?_, ?_⟩
+  · rw [hgen]; exact weightObs_eq _ _
+  · rw [hgen, hgen, weightObs_eq, weightObs_eq]; ring
+
+/-- STUDENTIZED RESIDUAL with its guard `stdev_res > 0`: for every `stdev_res` the value
+    times `stdev_res` is the residual when `stdev_res > 0`, the literal 0 when it is 0 (or negative), and the
+    guard has no absolute scale (a change of units `k > 0` of residual and deviation changes nothing) -/
+theorem C09_studentized_guard_full (sres r k : ℝ) (hk : 0 < k) :
+    (0 < sres → StatsGen.studentizedResidual sres r * sres = r) ∧
+    (sres ≤ 0 → StatsGen.studentizedResidual sres r = 0) ∧
+    StatsGen.studentizedResidual (k * sres) (k * r) = StatsGen.studentizedResidual sres r := by
+  have hgen : ∀ a b : ℝ, StatsGen.studentizedResidual a b = studentizedResidual a b := fun _ _ => rfl
+  simp only [hgen]
+  refine ⟨fun h => ?_, fun h => ?_, studentized_scale sres r k hk⟩
+  · simp only [studentizedResidual]; rw [if_pos h]; field_simp
+  · simp only [studentizedResidual]; rw [if_neg (not_lt.mpr h)]
+
+/-- REFERENCE DEVIATION with its guard `dof > 0`, every dof (1, 2, 3, … and ≤ 0), both accessors
+    and the XML writer's repetition of the formula: never throws, `m0² · dof = v'Pv` for dof ≥ 1,
+    the literal 0 for dof ≤ 0, a priori mode returns σ_apr, and `v'Pv ↦ s²·v'Pv` gives `s·m0`
+    (no absolute scale) -/
+theorem C09_m0_guard_full (act : SigmaAct) (sapr phi s : ℝ) (dof : ℤ) (hphi : 0 ≤ phi) (hs : 0 < s) :
+    ∃ v : ℝ, StatsGen.m0 act sapr phi dof = .ok v ∧
+      (act = .apriori → v = sapr) ∧
+      (act = .aposteriori → 0 < dof → v ^ 2 * (dof : ℝ) = phi ∧ 0 ≤ v) ∧
+      (act = .aposteriori → dof ≤ 0 → v = 0) ∧
+      (act = .aposteriori → v = StatsGen.m0Aposteriori phi dof ∧ v = StatsGen.xmlAposteriori phi dof) ∧
+      StatsGen.m0 act (s * sapr) (s ^ 2 * phi) dof = .ok (s * v) := by
+  have hgen : ∀ (a : SigmaAct) (x y : ℝ) (d : ℤ), StatsGen.m0 a x y d = .ok (m0 a x y d) := by
+    intro a x y d
+    cases a
+    · rfl
+    · by_cases h : d > 0 <;> simp [StatsGen.m0, m0, h]
+  have hgenA : StatsGen.m0Aposteriori phi dof = m0Aposteriori phi dof := rfl
+  have hgenX : StatsGen.xmlAposteriori phi dof = xmlAposteriori phi dof := rfl
+  refine ⟨m0 act sapr phi dof, hgen act sapr phi dof, ?_, ?_, ?_, ?_, ?_⟩
+  · rintro rfl; rfl
+  · rintro rfl hd
+    refine ⟨by
+      have := (m0_apost_sq phi dof hd hphi).1
+      simpa [m0, hd] using this, ?_⟩
+    simp only [m0, if_pos hd, sqrt_real]; exact Real.sqrt_nonneg _
+  · rintro rfl hd
+    exact ((C09_m0_select sapr phi dof).2.1 hd).1
+  · rintro rfl
+    exact ⟨hgenA.symm, hgenX.symm⟩
+  · rw [hgen, m0_scale act sapr phi s dof hs]
+
+/-- `<ratio>` with its guard `dof != 0`: ratio · σ_apr is the a posteriori value whenever
+    dof ≠ 0 (which is 0 for dof < 0), the literal 0 for dof = 0, and unchanged by σ_apr ↦ s·σ_apr -/
+theorem C09_ratio_guard_full (phi sapr s : ℝ) (dof : ℤ) (hsapr : sapr ≠ 0) (hs : 0 < s) :
+    (dof ≠ 0 → StatsGen.xmlRatio phi sapr dof * sapr = StatsGen.m0Aposteriori phi dof) ∧
+    (dof = 0 → StatsGen.xmlRatio phi sapr dof = 0) ∧
+    StatsGen.xmlRatio (s ^ 2 * phi) (s * sapr) dof = StatsGen.xmlRatio phi sapr dof := by
+  have hgen : ∀ a b : ℝ, StatsGen.xmlRatio a b dof = xmlRatio a b dof := fun _ _ => rfl
+  have hgenA : StatsGen.m0Aposteriori phi dof = m0Aposteriori phi dof := rfl
+  simp only [hgen, hgenA]
+  refine ⟨fun h => ?_, fun h => ?_, ?_⟩
+  · simp only [xmlRatio, if_pos h]; field_simp
+  · simp only [xmlRatio, h]; simp
+  · simp only [xmlRatio]
+    split_ifs with h
+    · have := (C09_sigma_apr_scaling_m0 .aposteriori sapr phi s dof hs hsapr).2
+      simpa [m0, m0Aposteriori] using this
+    · rfl
+
+/-- CONFIDENCE COEFFICIENT with its guard `dof > 0`: never throws; Normal in a priori mode for
+    every dof, Student(dof) for dof ≥ 1, the literal 0 for dof ≤ 0; `conf_pr` stored ⇔ 0 < p < 1 -/
+theorem C09_conf_guard_full (normal : ℝ → ℝ) (student : ℝ → ℤ → ℝ) (act : SigmaAct) (p : ℝ) (dof : ℤ) :
+    ∃ v : ℝ, StatsGen.confIntCoef normal student act p dof = .ok v ∧
+      (act = .apriori → v = normal ((1 - p) / 2)) ∧
+      (act = .aposteriori → 0 < dof → v = student ((1 - p) / 2) dof) ∧
+      (act = .aposteriori → dof ≤ 0 → v = 0) ∧
+      (StatsGen.confPrAccepted p = true ↔ (0 < p ∧ p < 1)) := by
+  have hgen : StatsGen.confIntCoef normal student act p dof = .ok (confIntCoef normal student act p dof) := by
+    cases act
+    · rfl
+    · by_cases h : dof > 0 <;> simp [StatsGen.confIntCoef, confIntCoef, h]
+  have hgenP : StatsGen.confPrAccepted p = confPrAccepted p := rfl
+  refine ⟨confIntCoef normal student act p dof, hgen, ?_, ?_, ?_, ?_⟩
+  · rintro rfl; exact (C09_conf_select normal student p dof).1
+  · rintro rfl h; exact (C09_conf_select normal student p dof).2.1 h
+  · rintro rfl h; exact (C09_conf_select normal student p dof).2.2 h
+  · rw [hgenP]; exact C09_conf_pr_guard p
+
+/-- `<err-obs>`, `<err-adj>` (printed only for `f ≥ 0.1`, i.e. away from `q_vv·p = 0`): the
+    estimated error of the observation times `q_vv·p` is the residual, the error of the adjusted
+    value is their difference -/
+theorem C09_err_obs_adj (v qvv w : ℝ) (h : qvv * w ≠ 0) :
+    (StatsGen.errObsAdj v qvv w).1 * (qvv * w) = v ∧
+    (StatsGen.errObsAdj v qvv w).2 = (StatsGen.errObsAdj v qvv w).1 - v := by
+  have hgen : StatsGen.errObsAdj v qvv w = errObsAdj v qvv w := rfl
+  rw [hgen]
+  exact ⟨div_mul_cancel₀ v h, rfl⟩
+
 /-! ## non-vacuity: concrete instances meeting the hypotheses -/
 
 -- a PSD block with distinct eigenvalues and a rotated axis: [[2,1],[1,1]]
@@ -338,5 +590,23 @@ example : (0:ℝ) ≤ 1 / weightObs (10:ℝ) 5 - 0.4 / weightObs (10:ℝ) 5 := b
 example : 1 / (4:ℝ) - 1.5 / 4 < 0 := by norm_num
 -- scaling: s = 3, σ_apr = 10, stdev = 5
 example : (0:ℝ) < 3 ∧ (10:ℝ) ≠ 0 ∧ (5:ℝ) ≠ 0 := by norm_num
+-- round 3.  C09_ellipse_is_eigen_full at the input that separates `c == 0` from `cyx == 0`
+-- (diagonal block, larger variance in y: cxx = 4, cxy = 0, cyy = 100, m0 = 1): the bearing is π/2
+example : (StatsGen.stdErrorEllipse (100:ℝ) 0 4 1).2.2 = π / 2 :=
+  (C09_ellipse_guard_boundary 4 100 1 1 (by norm_num) (by norm_num) (by norm_num) (by norm_num)).1
+-- … and its hypotheses there, with distinct eigenvalues (so the uniqueness clause is not vacuous)
+example : (0:ℝ) ≤ 1 ∧ (0:ℝ) ≤ 4 ∧ (0:ℝ) ≤ 100 ∧ (0:ℝ) ^ 2 ≤ 4 * 100 ∧ (100:ℝ) ≠ 4 := by norm_num
+-- C09_residual_cofactor_scale_free: weight 4, q_bb = 0.4, σ_apr ↦ 1000·σ_apr (t = 10⁶): the
+-- cofactor 0.15 becomes 1.5e-7 — below any "small" absolute threshold, and still not clamped
+example : StatsGen.wcoefRes (0.4:ℝ) (1000000 * 4) = 0.15 / 1000000 := by
+  rw [(C09_residual_cofactor_scale_free 0.4 4 1000000 1 0 0 (by norm_num)).2.2.2.1,
+    (C09_residual_cofactor_scale_free 0.4 4 1000000 1 0 0 (by norm_num)).1 (by norm_num)]
+  norm_num
+-- C09_m0_guard_full at dof = 1 (the smallest redundancy): v'Pv = 9 gives m0 = 3 exactly
+example : ∃ v : ℝ, StatsGen.m0 .aposteriori (10:ℝ) 9 1 = .ok v ∧ v ^ 2 * ((1:ℤ):ℝ) = 9 := by
+  obtain ⟨v, h1, -, h3, -⟩ := C09_m0_guard_full .aposteriori 10 9 1 1 (by norm_num) (by norm_num)
+  exact ⟨v, h1, (h3 rfl (by norm_num)).1⟩
+-- C09_studentized_guard_full / C09_ratio_guard_full / C09_err_obs_adj hypotheses
+example : (0:ℝ) ≤ 2 ∧ (0:ℝ) < 1000 ∧ (10:ℝ) ≠ 0 ∧ (0.15:ℝ) * 4 ≠ 0 ∧ (3:ℤ) ≠ 0 := by norm_num
 
 end Gama.Props.C09
